@@ -22,7 +22,7 @@ SPEC = "das/MCDAS.tla"
 
 BASE = dict(MaxHeight=3, Range=2, Conc=1, TailH=1, FailBudget=1, CancelBudget=0, StopBudget=1,
             BgStore="TRUE", FixSilentExit="TRUE", FixResumeDone="TRUE", FixRecentCp="TRUE",
-            MaxSteps=1000, SimDepth=1000, SpawnFirst="FALSE")
+            MaxSteps=1000, SimDepth=1000, SpawnFirst="FALSE", AllowTailAdvance="FALSE")
 
 ALL_INV = "TypeOK NoLostHeight SampledHeadSound CheckpointCovers ConcBound DoneExact EveryJobReports"
 
@@ -34,6 +34,7 @@ def write_cfg(ctx, name, consts, invariants=ALL_INV, props="BackoffMonotone", mc
         c.pop("MaxSteps")
         c.pop("SimDepth")
         c.pop("SpawnFirst")
+        c.pop("AllowTailAdvance")
     lines = ["CONSTANTS"] + ["  %s = %s" % (k, v) for k, v in c.items()]
     if mc:
         lines += ["INIT MCInit", "NEXT MCNext", "VIEW View"]
@@ -55,7 +56,7 @@ def hist_to_scenario(name, hist, consts):
     # sequence (between StopBegin and StopFinal) is covered by TLC only
     steps, down = [], False
     for st in hist:
-        if down and st["op"] not in ("start", "storeadvance"):
+        if down and st["op"] not in ("start", "storeadvance", "tailadvance"):
             continue
         if st["op"] in ("stop", "crash"):
             down = True
@@ -105,11 +106,12 @@ def run(ctx, prop):
     # ---- 1. exhaustive model of the current tree
     cfgs = [("exh_r2_c1", dict())]
     if quick:
-        cfgs.append(("exh_r1_c2", dict(MaxHeight=2, Range=1, Conc=2, BgStore="FALSE")))
+        cfgs.append(("exh_r1_c2_tail", dict(MaxHeight=2, Range=1, Conc=2, BgStore="FALSE", AllowTailAdvance="TRUE")))
     else:
         cfgs.append(("exh_r1_c2", dict(MaxHeight=3, Range=1, Conc=2, BgStore="FALSE")))
         cfgs.append(("exh_r3_c1_f2", dict(MaxHeight=3, Range=3, Conc=1, FailBudget=2, StopBudget=1)))
         cfgs.append(("exh_h4", dict(MaxHeight=4, Range=2, Conc=1, BgStore="FALSE")))
+        cfgs.append(("exh_tail", dict(MaxHeight=3, Range=2, Conc=1, BgStore="FALSE", AllowTailAdvance="TRUE", StopBudget=2)))
     for name, consts in cfgs:
         r = ctx.tlc(SPEC, write_cfg(ctx, name, consts), workers=workers, timeout=900 if quick else 3000,
                     coverage=(name == "exh_r2_c1" and not quick), heap="12g")
@@ -163,7 +165,7 @@ def run(ctx, prop):
     depth = 40
     for i, consts in enumerate([dict(MaxHeight=6, Range=2, Conc=2, FailBudget=3, CancelBudget=1, StopBudget=2),
                                 dict(MaxHeight=5, Range=2 if quick else 3, Conc=1, FailBudget=2, CancelBudget=1, StopBudget=2)]):
-        consts = dict(consts, SimDepth=depth, MaxSteps=depth, SpawnFirst="TRUE")
+        consts = dict(consts, SimDepth=depth, MaxSteps=depth, SpawnFirst="TRUE", AllowTailAdvance="TRUE")
         cfg = write_cfg(ctx, "sim%d" % i, consts, invariants=ALL_INV)
         simdir = os.path.join(ctx.work, "sim%d" % i)
         os.makedirs(simdir, exist_ok=True)
